@@ -32,17 +32,32 @@
 (* counter stays equal to what the sink holds (CounterInv survives), yet TLC   *)
 (* must refute Accounted, Accounting, ChunkFree, Prefix, ErrSurfaces and Retry *)
 (* (checks/c19.py runs them one by one).  With FALSE xsites is empty.          *)
+(*                                                                          *)
+(* The writer's OWN state across saves: `doc` abstracts the part of the        *)
+(* Document a save reads (max_id, trailer): 0 = as the caller left it.  The    *)
+(* bytes of a save are a function of the document at its start: the last site  *)
+(* (the cross-reference section: number of the cross-reference stream, Size,   *)
+(* Index) is shifted by `doc` (Shift).  prog0 is what a fresh clone writes.    *)
+(* C19's "later save of the same document" only makes sense if a save, failed  *)
+(* or not, leaves the document as it was: DocUnchanged.  DevMutatesDoc = TRUE  *)
+(* is the deviation "max_id and trailer mutated before the sink is known to    *)
+(* be healthy" (writer.rs write_cross_reference_stream: `self.max_id += 1`,    *)
+(* `self.trailer.set(..)` on entering the cross-reference section); TLC must   *)
+(* refute DocUnchanged and Later under it.  After the first save (failed or    *)
+(* successful) the same document is saved again to a sink that may chunk but   *)
+(* does not fail (attempt 2).                                                 *)
 (***************************************************************************)
 EXTENDS SaveSink, TLC
 
 CONSTANTS Variant,      \* "asis" | "count_accepted" | mutants, see WLoop
           MaxIntr,      \* bound on Interrupted answers per save
           KeepHist,     \* record the sink's call log (needed for REPLAY emission and AbstractionOK)
-          DevIgnoredWrite \* deviation switch: sites of path X use `write` and ignore its result
+          DevIgnoredWrite, \* deviation switch: sites of path X use `write` and ignore its result
+          DevMutatesDoc    \* deviation switch: the document is changed on entering the cross-reference section
 
 VARIABLES prog,         \* the writer's program: sequence of buffers (sequences of byte values)
           raw1,         \* call 1 bypasses CountingWrite::write_all (incremental save, previous bytes)
-          attempt,      \* 1 = save to the adversarial sink, 2 = later save to a healthy sink
+          attempt,      \* 1 = save to the adversarial sink, 2 = the same document saved again (sink chunks, never fails)
           i,            \* index of the current / next write_all call
           rest,         \* write_all loop: part of prog[i] not yet accepted
           resp,         \* last response of the sink
@@ -54,17 +69,22 @@ VARIABLES prog,         \* the writer's program: sequence of buffers (sequences 
           failed,       \* the sink answered Ok(0)/Err in this attempt
           nintr,        \* Interrupted answers so far
           hist,         \* <<len, res>> per sink call of attempt 1 (if KeepHist)
-          xsites        \* indices of the sites on path X (empty unless DevIgnoredWrite)
+          xsites,       \* indices of the sites on path X (empty unless DevIgnoredWrite)
+          doc,          \* the writer's own state that outlives a save (max_id, trailer): number of mutations
+          prog0         \* the program a fresh clone of the document writes (prog = Shift(prog0, doc at save start))
 
-vars == <<prog, raw1, attempt, i, rest, resp, delivered, counter, pc, result, offsets, failed, nintr, hist, xsites>>
+vars == <<prog, raw1, attempt, i, rest, resp, delivered, counter, pc, result, offsets, failed, nintr, hist, xsites, doc, prog0>>
 
 Variants == {"asis", "count_accepted", "double_count", "single_write", "swallow_err", "retry_err",
              "ok0_retry", "intr_fatal", "counter_persist"}
 
 Full == Flatten(prog)
 
+\* what a save writes when the document has been mutated d times: the cross-reference section differs
+Shift(p, d) == [k \in 1..Len(p) |-> IF k = Len(p) THEN [j \in 1..Len(p[k]) |-> p[k][j] + 100 * d] ELSE p[k]]
+
 InitWith(p, r, xs) ==
-    /\ prog = p /\ raw1 = r /\ xsites = xs /\ attempt = 1 /\ i = 1 /\ rest = <<>> /\ resp = 0
+    /\ prog = p /\ prog0 = p /\ doc = 0 /\ raw1 = r /\ xsites = xs /\ attempt = 1 /\ i = 1 /\ rest = <<>> /\ resp = 0
     /\ delivered = <<>> /\ counter = 0 /\ pc = "call" /\ result = "none" /\ offsets = <<>>
     /\ failed = FALSE /\ nintr = 0 /\ hist = <<>>
 
@@ -78,18 +98,20 @@ IsX(k)   == k \in xsites /\ ~IsRaw(k)
 WCall ==
     /\ pc = "call" /\ i <= Len(prog) /\ result = "none"
     /\ offsets' = Append(offsets, counter)
+    \* entering the cross-reference section (the last site)
+    /\ doc' = IF DevMutatesDoc /\ i = Len(prog) THEN doc + 1 ELSE doc
     /\ counter' = IF IsRaw(i) \/ IsX(i) \/ Variant = "count_accepted" THEN counter ELSE counter + Len(prog[i])
     /\ rest' = prog[i]
     /\ IF prog[i] = <<>>                \* write_all(b"") never calls inner.write
        THEN i' = i + 1 /\ pc' = "call"
        ELSE i' = i /\ pc' = "sink"
-    /\ UNCHANGED <<prog, raw1, attempt, resp, delivered, result, failed, nintr, hist, xsites>>
+    /\ UNCHANGED <<prog, raw1, attempt, resp, delivered, result, failed, nintr, hist, xsites, prog0>>
 
 \* all sites done: save_internal returns Ok(())
 WFinish ==
     /\ pc = "call" /\ i = Len(prog) + 1 /\ result = "none"
     /\ result' = "ok" /\ pc' = "done"
-    /\ UNCHANGED <<prog, raw1, attempt, i, rest, resp, delivered, counter, offsets, failed, nintr, hist, xsites>>
+    /\ UNCHANGED <<prog, raw1, attempt, i, rest, resp, delivered, counter, offsets, failed, nintr, hist, xsites, doc, prog0>>
 
 Abort == result' = "err" /\ pc' = "done" /\ UNCHANGED <<i, rest, counter>>
 
@@ -102,7 +124,7 @@ Completed(cnt) ==
 \* std::io::Write::write_all, one iteration: react to the sink's answer
 WLoop ==
     /\ pc = "ret"
-    /\ UNCHANGED <<prog, raw1, attempt, resp, delivered, offsets, failed, nintr, hist, xsites>>
+    /\ UNCHANGED <<prog, raw1, attempt, resp, delivered, offsets, failed, nintr, hist, xsites, doc, prog0>>
     /\ IF IsX(i) THEN
           \* path X under DevIgnoredWrite: `file.write(buf)?;` - one call, the returned count is dropped
           IF resp > 0 THEN Completed(counter + resp)        \* CountingWrite::write counted what was accepted
@@ -124,13 +146,16 @@ WLoop ==
           ELSE IF Variant = "swallow_err" THEN Completed(counter)               \* a dropped `?`
           ELSE Abort
 
-\* later save of the same document to a healthy sink: a fresh CountingWrite
+\* the same document is saved again (after a failed save: C19's "later save"; after a successful one: a
+\* second sink fed from the same Document) to a sink that does not fail: a fresh CountingWrite, and the
+\* bytes are those the document AS IT IS NOW gives
 SaveAgain ==
-    /\ pc = "done" /\ result = "err" /\ attempt = 1
+    /\ pc = "done" /\ result \in {"ok", "err"} /\ attempt = 1
     /\ attempt' = 2 /\ i' = 1 /\ rest' = <<>> /\ delivered' = <<>> /\ pc' = "call" /\ result' = "none"
     /\ counter' = IF Variant = "counter_persist" THEN counter ELSE 0
     /\ offsets' = <<>> /\ failed' = FALSE
-    /\ UNCHANGED <<prog, raw1, resp, nintr, hist, xsites>>
+    /\ prog' = Shift(prog0, doc)
+    /\ UNCHANGED <<raw1, resp, nintr, hist, xsites, doc, prog0>>
 
 WriterNext == WCall \/ WFinish \/ WLoop \/ SaveAgain
 
@@ -143,9 +168,9 @@ Respond(r) ==
     /\ delivered' = IF r > 0 THEN delivered \o SubSeq(rest, 1, r) ELSE delivered
     /\ failed' = (failed \/ IsFailure(r))
     /\ hist' = IF KeepHist /\ attempt = 1 THEN Append(hist, <<Len(rest), r>>) ELSE hist
-    /\ UNCHANGED <<prog, raw1, attempt, i, rest, counter, result, offsets, xsites>>
+    /\ UNCHANGED <<prog, raw1, attempt, i, rest, counter, result, offsets, xsites, doc, prog0>>
 
-SinkAccept == \E k \in 1..Len(rest) : (attempt = 1 \/ k = Len(rest)) /\ Respond(k) /\ UNCHANGED nintr
+SinkAccept == \E k \in 1..Len(rest) : Respond(k) /\ UNCHANGED nintr      \* attempt 2 may chunk, it never fails
 SinkIntr   == attempt = 1 /\ nintr < MaxIntr /\ Respond(RIntr) /\ nintr' = nintr + 1
 SinkOk0    == attempt = 1 /\ Respond(ROk0) /\ UNCHANGED nintr
 SinkErr    == attempt = 1 /\ Respond(RErr) /\ UNCHANGED nintr
@@ -160,7 +185,7 @@ TypeOK ==
     /\ pc \in {"call", "sink", "ret", "done"} /\ result \in {"none", "ok", "err"}
     /\ attempt \in {1, 2} /\ i \in 1..(Len(prog) + 1) /\ counter \in Nat /\ nintr \in 0..MaxIntr
     /\ failed \in BOOLEAN /\ raw1 \in BOOLEAN /\ xsites \subseteq 1..Len(prog)
-    /\ (DevIgnoredWrite \/ xsites = {})
+    /\ (DevIgnoredWrite \/ xsites = {}) /\ doc \in Nat /\ (DevMutatesDoc \/ doc = 0)
 
 \* The writer-side contract of the inner.write protocol: every byte handed to the sink is accounted for.
 \* The result of each write is consumed: after Ok(k) with k < Len(rest) the writer advances by exactly k and
@@ -205,9 +230,13 @@ Retry == [][ (pc = "ret" /\ resp = RIntr) =>
                (delivered' = delivered /\ result' = result /\ rest' = rest /\ counter' = counter /\ pc' = "sink") ]_vars
 RetrySink == [][ (pc = "sink" /\ resp' = RIntr /\ pc' = "ret") => (delivered' = delivered /\ result' = result) ]_vars
 
-\* the later save to a healthy sink succeeds with the complete output and correct offsets
+\* the later save (and a second save after a successful one) succeeds with the complete output and correct offsets
+\* ... STRICTLY: it is the save of a fresh clone (prog0), whatever happened in the first save
 Later == (attempt = 2 /\ pc = "done") =>
-    /\ result = "ok" /\ delivered = Full /\ counter = Len(Full) /\ offsets = OffsetsOf(prog)
+    /\ result = "ok" /\ delivered = Flatten(prog0) /\ counter = Len(delivered) /\ offsets = OffsetsOf(prog0)
+
+\* a save, failed or not, leaves the document as it was
+DocUnchanged == [][doc' = doc]_vars
 
 \* the per-save verdict function used by the trace validator agrees with the state-level properties
 ObsNow == [failed |-> failed, nintr |-> nintr, result |-> result, dlen |-> Len(delivered),
